@@ -427,7 +427,7 @@ namespace xsimd
         {
             const batch<double, A> low(_mm256_i32gather_pd(src, _mm256_castsi256_si128(index.data), sizeof(double)));
             const batch<double, A> high(_mm256_i32gather_pd(src, _mm256_extractf128_si256(index.data, 1), sizeof(double)));
-            return detail::merge_sse(_mm256_cvtpd_epi32(low.data), _mm256_cvtpd_epi32(high.data));
+            return detail::merge_sse(_mm256_cvttpd_epi32(low.data), _mm256_cvttpd_epi32(high.data));
         }
 
         // lt
